@@ -76,6 +76,15 @@ def gen_cases(tier, seed):
                 if op == "squash" and na == 0:
                     continue  # removing the empty slices of an all-zero tensor has no defined result
                 yield {"w": "unary", "op": op, "shape": list(shp), "na": na, "orders": "all", "cseed": int(seed) * 104729 + next(cs)}
+    # the structural sanitizer under the other properties' traffic: their quick workloads replayed with only ILLFORMED listening
+    import importlib
+
+    step = 10 if tier == "quick" else 2
+    for p in ("C01", "C02", "C03", "C04", "C07", "C20"):
+        mod = importlib.import_module(f"pvm.props.{p.lower()}")
+        for i, c in enumerate(mod.gen_cases("quick", seed)):
+            if i % step == 0:
+                yield {"w": "cross", "prop": p, "case": c, "na": 2, "op": "cross:" + p}
     # larger operands, random orders
     for _ in range(3 if tier == "quick" else 20):
         for op in BINOPS + UNOPS:
@@ -136,7 +145,28 @@ def _arr_same(x, y, tol):
     return close(x, y, tol=tol)
 
 
+def _cross(case, ctx):
+    import importlib
+
+    from ..core import CaseAbort
+    from ..denote import DenoteError
+
+    mod = importlib.import_module(f"pvm.props.{case['prop'].lower()}")
+    ctx.accept = lambda s: s.startswith("ILLFORMED")
+    np.random.seed(int(case["case"].get("gseed") or 0))
+    try:
+        mod.run_case(case["case"], ctx)
+    except CaseAbort:
+        pass
+    except DenoteError as e:
+        ctx.fail("cross:" + case["prop"], "ILLFORMED:denote", str(e))
+    finally:
+        ctx.accept = None
+
+
 def run_case(case, ctx):
+    if case["w"] == "cross":
+        return _cross(case, ctx)
     rng = np.random.default_rng(case["cseed"])
     shape = tuple(case["shape"])
     op = case["op"]
